@@ -20,7 +20,9 @@
 (*           row, one row lacking address / host_id / data_center / rack /    *)
 (*           tokens, two valid rows (duplicate endpoint), or a valid and an   *)
 (*           invalid row in either order                                      *)
-(*   ctlDup  a valid peers row whose endpoint is the control node's           *)
+(*   ctlDup  a valid peers row whose endpoint is the control node's (with      *)
+(*           other data than system.local: the control node is described by   *)
+(*           system.local)                                                    *)
 (* The Refresh action processes the rows in table order exactly like the      *)
 (* code (found set, add or update, removal pass); the properties below are    *)
 (* stated declaratively on the snapshot, so TLC checks the loop against them. *)
@@ -51,27 +53,32 @@ NoInfo   == [loc |-> "none", tok |-> 0]
 Infos    == [loc : Locs, tok : TokVs]
 DefInfo  == [loc |-> CHOOSE l \in Locs : TRUE, tok |-> CHOOSE v \in TokVs : TRUE]
 
-\* rows of one peer, in table order
-Row(p, miss) == [ep |-> p, miss |-> miss]
-RowsOf(p, sh) == CASE sh = "absent"    -> <<>>
-                   [] sh = "valid"     -> <<Row(p, "none")>>
-                   [] sh = "noaddr"    -> <<Row(p, "address")>>
-                   [] sh = "nohid"     -> <<Row(p, "host_id")>>
-                   [] sh = "nodc"      -> <<Row(p, "data_center")>>
-                   [] sh = "norack"    -> <<Row(p, "rack")>>
-                   [] sh = "notok"     -> <<Row(p, "tokens")>>
-                   [] sh = "dup"       -> <<Row(p, "none"), Row(p, "none")>>
-                   [] sh = "inv_valid" -> <<Row(p, "host_id"), Row(p, "none")>>
-                   [] sh = "valid_inv" -> <<Row(p, "none"), Row(p, "rack")>>
+\* rows of one peer, in table order; i = what a (valid) row of that peer says
+Row(p, miss, i) == [ep |-> p, miss |-> miss, info |-> i]
+RowsOf(p, sh, i) == CASE sh = "absent"    -> <<>>
+                      [] sh = "valid"     -> <<Row(p, "none", i)>>
+                      [] sh = "noaddr"    -> <<Row(p, "address", i)>>
+                      [] sh = "nohid"     -> <<Row(p, "host_id", i)>>
+                      [] sh = "nodc"      -> <<Row(p, "data_center", i)>>
+                      [] sh = "norack"    -> <<Row(p, "rack", i)>>
+                      [] sh = "notok"     -> <<Row(p, "tokens", i)>>
+                      [] sh = "dup"       -> <<Row(p, "none", i), Row(p, "none", i)>>
+                      [] sh = "inv_valid" -> <<Row(p, "host_id", i), Row(p, "none", i)>>
+                      [] sh = "valid_inv" -> <<Row(p, "none", i), Row(p, "rack", i)>>
+
+\* a peers row that carries the control node's endpoint says something else than system.local (which is
+\* authoritative for the control node) whenever the constants allow it
+Other(X, x) == IF X \ {x} = {} THEN x ELSE CHOOSE y \in X \ {x} : TRUE
+CtlDupInfo(l) == [loc |-> Other(Locs, l.loc), tok |-> Other(TokVs, l.tok)]
 
 MaxOf(X) == CHOOSE x \in X : \A y \in X : y <= x
 RECURSIVE PeerRows(_, _)
-PeerRows(shape, n) == IF n = 0 THEN <<>>
-                      ELSE PeerRows(shape, n - 1) \o (IF n \in Peers THEN RowsOf(n, shape[n]) ELSE <<>>)
+PeerRows(snap, n) == IF n = 0 THEN <<>>
+                     ELSE PeerRows(snap, n - 1) \o (IF n \in Peers THEN RowsOf(n, snap.shape[n], snap.info[n]) ELSE <<>>)
 
 \* system.peers as the driver reads it
-Rows(snap) == (IF snap.ctlDup THEN <<Row(0, "none")>> ELSE <<>>)
-              \o PeerRows(snap.shape, IF Peers = {} THEN 0 ELSE MaxOf(Peers))
+Rows(snap) == (IF snap.ctlDup THEN <<Row(0, "none", CtlDupInfo(snap.local))>> ELSE <<>>)
+              \o PeerRows(snap, IF Peers = {} THEN 0 ELSE MaxOf(Peers))
 
 \* snapshots; the info of a peer without a valid row is irrelevant and fixed
 Canonical(snap) == \A p \in Peers : snap.shape[p] \notin ValidShapes => snap.info[p] = DefInfo
@@ -104,7 +111,7 @@ Init == /\ known = (0 :> NoInfo)
 RowStep(acc, r, snap) ==
     IF r.miss # "none" THEN acc                                   \* _is_valid_peer
     ELSE IF r.ep \in acc.found THEN acc                           \* "Found multiple hosts with the same endpoint"
-    ELSE LET i == IF r.ep = 0 THEN snap.local ELSE snap.info[r.ep] IN
+    ELSE LET i == r.info IN
          IF r.ep \notin DOMAIN acc.k
          THEN [found |-> acc.found \cup {r.ep},
                k     |-> acc.k @@ (r.ep :> i),                    \* add_host(..., signal=True)
